@@ -116,6 +116,10 @@ func parseTime(timeStr string) (uint32, error) {
 	if strings.HasSuffix(timeStr, "-ago") {
 		var duration time.Duration
 		durationStr := strings.TrimSuffix(timeStr, "-ago")
+		if durationStr == "" {
+			log.Errorf("parseTime: invalid time format: %s", timeStr)
+			return 0, fmt.Errorf("invalid time format: %s", timeStr)
+		}
 		unit := durationStr[len(durationStr)-1]
 		durationNum, err := strconv.Atoi(strings.TrimSuffix(durationStr, string(unit)))
 		if err != nil {
